@@ -19,7 +19,7 @@ pub fn meta() -> Meta {
     Meta {
         id: "C09",
         level: "exploration",
-        rule: "for all 30 valid k x both strand modes x input families {generic pool; all split k-mers fit in 64 bits (k>=33: records of length k starting with k-33 A's, verified by the model to be < 2^64); mixed fitting + non-fitting samples; a 3 kb genome (thousands of k-mers)}: `ska build` then every subcommand on the saved file through the CLI — nk --full-info (incl. k_bits), align, map aln+vcf, distance, weed, delete, merge with a second file in both orders (fitting/non-fitting in both orders; a second file reduced by a filter; a second file emptied of all k-mers) and the empty-after-filter file — each compared with what the model derives from the source sequences; every stored field is read back with the independent mirror decoder. Non-trivial = a CLI command on a non-empty file; distinct outcomes = distinct expected outputs.".into(),
+        rule: "for all 30 valid k x both strand modes x input families {generic pool; all split k-mers fit in 64 bits (k>=33: records of length k starting with k-33 A's, verified by the model to be < 2^64); mixed fitting + non-fitting samples; a 3 kb genome (thousands of k-mers)}: `ska build` then every subcommand on the saved file through the CLI — nk --full-info (incl. k_bits), align (plain and with every flag), map aln+vcf, distance (plain and with its flags), weed (sequence file, --reverse, and the filter flags), delete, merge with a second file in both orders (fitting/non-fitting in both orders; a second file reduced by a filter; a second file emptied of all k-mers) and the empty-after-filter file — each compared with what the model derives from the source sequences; every stored field is read back with the independent mirror decoder. Non-trivial = a CLI command on a non-empty file; distinct outcomes = distinct expected outputs.".into(),
         assumptions: vec!["the model stands in for 'the in-memory data it was saved from' (their agreement is C01/C06/C07/C08/C13/C14's subject)".into()],
         exhaustive_when_uncapped: true,
     }
@@ -160,6 +160,50 @@ fn check_family(rep: &mut Report, k: usize, rc: bool, fam: &Fam, dir: &str) -> V
         }
         Ok(())
     })());
+    // the same with every flag of the align arm spelled out (argument plumbing of both width arms)
+    let n = names.len();
+    let flagsets: Vec<(Vec<&str>, FilterSpec)> = vec![
+        (vec!["--filter", "no-const", "--ambig-mask"], FilterSpec { thr: 0, filt: Filt::NoConst, ambig_missing: false, mask: true, nogap: false }),
+        (vec!["--filter", "no-ambig-or-const", "--no-gap-only-sites"], FilterSpec { thr: 0, filt: Filt::NoAmbigOrConst, ambig_missing: false, mask: false, nogap: true }),
+        (vec!["--filter", "no-ambig", "--filter-ambig-as-missing"], FilterSpec { thr: 0, filt: Filt::NoAmbig, ambig_missing: true, mask: false, nogap: false }),
+        (vec!["--filter", "no-filter", "--filter-ambig-as-missing"], FilterSpec { thr: n, filt: Filt::NoFilter, ambig_missing: true, mask: false, nogap: false }),
+    ];
+    for (flags, spec) in &flagsets {
+        let freq = format!("{}", freq_for_threshold(spec.thr, n));
+        let mut a = vec!["align", "x.skf", "--min-freq", &freq];
+        a.extend(flags.iter());
+        let o = cli::run(&a, dir, None);
+        step(rep, &format!("align {}", flags.join(" ")), (|| {
+            if o.code != 0 {
+                return Err(format!("exit {} {}", o.code, tail(&o)));
+            }
+            let (nm, seqs) = real::parse_fasta(&o.stdout);
+            if nm != names || real::columns_of(&seqs)? != t.filter(spec).columns() {
+                return Err("alignment columns differ from the model".into());
+            }
+            Ok(())
+        })());
+        // the weed arm passes the same flags on (weed floors, so only exact products)
+        if spec.thr == 0 || spec.thr == n {
+            let wf = if spec.thr == 0 { "0" } else { "1" };
+            let mut a = vec!["weed", "x.skf", "-o", "wf.skf", "--min-freq", wf];
+            a.extend(flags.iter());
+            let _ = std::fs::remove_file(format!("{dir}/wf.skf"));
+            let o = cli::run(&a, dir, None);
+            step(rep, &format!("weed {}", flags.join(" ")), (|| {
+                if o.code != 0 {
+                    return Err(format!("exit {} {}", o.code, tail(&o)));
+                }
+                let got = FileState::read(&format!("{dir}/wf.skf"))?;
+                let noop = spec.thr == 0 && spec.filt == Filt::NoFilter && !spec.mask && !spec.nogap;
+                let want = if noop { t.clone() } else { t.filter(spec) };
+                if got.table != want {
+                    return Err(format!("filtered file has {} rows, model {}", got.table.rows.len(), want.rows.len()));
+                }
+                Ok(())
+            })());
+        }
+    }
     // map (reference = first record of the first sample, plus a short second contig)
     let refseqs = vec![fam.samples[0][0].clone(), b"ACGTA".to_vec()];
     std::fs::write(format!("{dir}/ref.fa"), scratch::fasta_named(&[("c0".into(), refseqs[0].clone()), ("c1".into(), refseqs[1].clone())])).unwrap();
@@ -188,6 +232,21 @@ fn check_family(rep: &mut Report, k: usize, rc: bool, fam: &Fam, dir: &str) -> V
         }
         Ok(())
     })());
+    // distance with its flags
+    if !t.has_ambig() && n >= 2 {
+        let f = format!("{}", freq_for_threshold(n - 1, n));
+        let o = cli::run(&["distance", "x.skf", "--allow-ambiguous", "--min-freq", &f], dir, None);
+        step(rep, "distance --allow-ambiguous --min-freq", (|| {
+            if o.code != 0 {
+                return Err(format!("exit {} {}", o.code, tail(&o)));
+            }
+            let got: Vec<String> = String::from_utf8_lossy(&o.stdout).lines().skip(1).map(|s| s.to_string()).collect();
+            if got != t.distance_lines(n - 1) {
+                return Err(format!("distance lines {:?} expected {:?}", got.first(), t.distance_lines(n - 1).first()));
+            }
+            Ok(())
+        })());
+    }
     // distance
     if !t.has_ambig() {
         let o = cli::run(&["distance", "x.skf"], dir, None);
